@@ -162,6 +162,8 @@ def check_pipeline(ck, name, kw, props):
                 solver('C01', f'element {ei} is an answer of the unshifted kernel call, or a singular candidate that passed the pose cross-check (unshifted pose) and the limits', ctx, z3.Not(z3.Or(alts)) if alts else z3.BoolVal(True))
                 if prev is not None and 'C05' in props:
                     solver('C05', f'element {ei} (singular candidate): J4 and J6 move by the same amount from previous', ctx, src_j[3].v - prev[3] != src_j[5].v - prev[5])
+                    # the shift is half of an angle wrapped into [-pi,pi]: at most a quarter turn, so a previous that already realises the pose is kept (shift 0, not +-pi)
+                    solver('C05', f'element {ei} (singular candidate): J4/J6 shift is at most a quarter turn (the wrapped half-difference)', ctx, z3.Or(src_j[3].v - prev[3] > PI / 2, prev[3] - src_j[3].v > PI / 2))
         kern = [w[1] for w in srcs if w and w[0] == 'kernel']
         structural('C04', 'every answer of the unshifted kernel call is kept, once, in order (superset of plain inverse before filtering)', kern == list(range(len(first))), ctx)
         structural('C01', 'at most one extra (singular) answer', len(elems) - len(kern) <= 1, ctx)
